@@ -1,5 +1,6 @@
 """U-CALLLOWER: the generic-callee branch (`other => { .. }`) of the CallExpr arm of ast::lower::lower_expr_with_args (fragment)."""
 import re
+from units.common import arm_guard
 from vlib.gen import Unit, Fn, Adt, Raw
 
 LW = "crates/ast/src/lower.rs"
@@ -20,6 +21,8 @@ UNIT = Unit(
              "FRAGMENT: one branch of one arm of lower_expr_with_args; the recursive lowerings and apply_trailing_args are stubs with uninterpreted results; "
              "cst::Expr is a shim with the node kinds this branch distinguishes; `Vec::extend(Vec)` is a shim (appends)"],
     items=[
+        arm_guard("crates/ast/src/lower.rs", "lower_expr_with_args", None, r"match node \{",
+                  ['cst::Expr::UnitExpr', 'cst::Expr::BoolExpr', 'cst::Expr::IntExpr', 'cst::Expr::Int8Expr', 'cst::Expr::Int16Expr', 'cst::Expr::Int32Expr', 'cst::Expr::Int64Expr', 'cst::Expr::UInt8Expr', 'cst::Expr::UInt16Expr', 'cst::Expr::UInt32Expr', 'cst::Expr::UInt64Expr', 'cst::Expr::FloatExpr', 'cst::Expr::Float32Expr', 'cst::Expr::Float64Expr', 'cst::Expr::StrExpr', 'cst::Expr::MultilineStrExpr', 'cst::Expr::CallExpr', 'cst::Expr::MatchExpr', 'cst::Expr::GoExpr', 'cst::Expr::IfExpr', 'cst::Expr::WhileExpr', 'cst::Expr::StructLiteralExpr', 'cst::Expr::ArrayLiteralExpr', 'cst::Expr::IdentExpr', 'cst::Expr::TupleExpr', 'cst::Expr::ParenExpr', 'cst::Expr::PrefixExpr', 'cst::Expr::BinaryExpr', 'cst::Expr::ClosureExpr']),
         Raw(text="pub mod ast {\nuse vstd::prelude::*;\n"),
         Raw(path="contracts/ast.shim.rs"),
         Adt(file=A, kw="struct", name="AstIdent", rules=["attrs"]),
